@@ -15,6 +15,7 @@ import (
 func main() {
 	in := flag.String("scenarios", "", "JSON file with a list of scenarios")
 	out := flag.String("out", "", "NDJSON output file")
+	dirk := flag.String("dirk", "", "path of a dirk binary: run each (fault-free) generation on a cluster of real binaries talking gRPC over TLS to each other")
 	flag.Parse()
 	data, err := os.ReadFile(*in)
 	if err != nil {
@@ -34,7 +35,11 @@ func main() {
 	log := world.NewLog(w)
 	ctx := context.Background()
 	for _, sc := range scs {
-		if err := world.RunDkgScenario(ctx, sc, log); err != nil {
+		run := func() error { return world.RunDkgScenario(ctx, sc, log) }
+		if *dirk != "" {
+			run = func() error { return world.RunRemoteDkg(ctx, sc, *dirk, log) }
+		}
+		if err := run(); err != nil {
 			log.Emit(world.Ev{"ev": "DriverError", "sc": sc.ID, "err": err.Error()})
 			fmt.Fprintln(os.Stderr, "scenario", sc.ID, "failed:", err)
 			os.Exit(2)
